@@ -330,7 +330,7 @@ static unsigned char *make_icc(long n)
 
 /* custom filter of tj3Transform: coefficients of maximal magnitude (8-bit data: |v| <= 1023), which
    take the longest codes of the standard tables (16 bits beginning with 0xFF => byte stuffing) */
-static int hostile_pattern;
+static int hostile_pattern, hostile_max = 1023;
 static int hostile_filter(short *coeffs, tjregion arrayRegion, tjregion planeRegion, int componentID,
                           int transformID, tjtransform *transform)
 {
@@ -340,10 +340,12 @@ static int hostile_filter(short *coeffs, tjregion arrayRegion, tjregion planeReg
     int v;
     r ^= r << 13; r ^= r >> 7; r ^= r << 17;
     switch (hostile_pattern & 3) {
-    case 0: v = 1023; break;
-    case 1: v = -1023; break;
-    case 2: v = (i & 1) ? 1023 : -1023; break;
-    default: v = 512 + (int)((r >> 20) % 512); if (r & 1) v = -v; break;
+    case 0: v = hostile_max; break;
+    case 1: v = -hostile_max; break;
+    case 2: v = (i & 1) ? hostile_max : -hostile_max; break;
+    default: v = (hostile_max + 1) / 2 + (int)((r >> 20) % ((hostile_max + 1) / 2)); if (r & 1) v = -v;
+             if (hostile_max > 1023 && (r & 6) == 0) v >>= (int)((r >> 8) % 13);   /* many categories: long optimal codes */
+             if (v == 0) v = 1; break;
     }
     coeffs[i] = (short)((i % 64 == 0) ? ((hostile_pattern & 4) ? 1016 : 0) : v);
   }
@@ -367,7 +369,13 @@ static int do_op(tjhandle tj, const spec_t *s, unsigned char **buf, size_t *size
     size_t srccap = (size_t)s->w * s->h * ps * 4 + 65536, srcsize = srccap;
     unsigned char *src = malloc(srccap), *src0 = src; tjtransform xf;
     set_params(c, s, 0);
-    rc = tj3Compress8(c, img, s->w, 0, s->h, s->pf, &src, &srcsize);
+    if (s->mode & 256) {          /* 12-bit source: coefficients up to 2^14 - 1 */
+      short *im12 = malloc((size_t)s->w * s->h * ps * 2 + 16); size_t q;
+      for (q = 0; q < (size_t)s->w * s->h * ps; q++) im12[q] = (short)(img[q] << 4);
+      rc = tj3Compress12(c, im12, s->w, 0, s->h, s->pf, &src, &srcsize);
+      free(im12);
+    } else
+      rc = tj3Compress8(c, img, s->w, 0, s->h, s->pf, &src, &srcsize);
     tj3Destroy(c);
     if (src != src0) { fprintf(stderr, "source buffer grew\n"); exit(9); }
     if (rc == 0) {
@@ -380,7 +388,7 @@ static int do_op(tjhandle tj, const spec_t *s, unsigned char **buf, size_t *size
       tj3Set(tj, TJPARAM_ARITHMETIC, (s->mode & 4) ? 1 : 0);
       tj3Set(tj, TJPARAM_LOSSLESS, 0);
       tj3Set(tj, TJPARAM_RESTARTBLOCKS, (s->mode & 16) ? 3 : 0);
-      if (s->mode & 128) { hostile_pattern = (int)(s->seed & 7); xf.customFilter = hostile_filter; }
+      if (s->mode & 128) { hostile_pattern = (int)(s->seed & 7); hostile_max = (s->mode & 256) ? 16383 : 1023; xf.customFilter = hostile_filter; }
       rc = tj3Transform(tj, src, srcsize, 1, buf, size, &xf);
     }
     free(src0);
@@ -416,7 +424,11 @@ static ref_t *reference(const spec_t *s)
       int pf = tj3Get(d, TJPARAM_COLORSPACE) == TJCS_CMYK || tj3Get(d, TJPARAM_COLORSPACE) == TJCS_YCCK ? TJPF_CMYK :
                tj3Get(d, TJPARAM_COLORSPACE) == TJCS_GRAY ? TJPF_GRAY : TJPF_RGB;
       unsigned char *out = malloc((size_t)w * h * tjPixelSize[pf] + 16);
-      if (tj3Decompress8(d, buf, size, out, 0, pf) == 0) r->dec = 1;
+      if (tj3Get(d, TJPARAM_PRECISION) > 8) {
+        short *o12 = malloc((size_t)w * h * tjPixelSize[pf] * 2 + 16);
+        if (tj3Decompress12(d, buf, size, o12, 0, pf) == 0) r->dec = 1;
+        free(o12);
+      } else if (tj3Decompress8(d, buf, size, out, 0, pf) == 0) r->dec = 1;
       free(out);
     }
     tj3Destroy(d);
@@ -437,7 +449,7 @@ static ref_t *reference(const spec_t *s)
 static struct jpeg_compress_struct cinfo;
 static struct jpeg_error_mgr jerr;
 static jmp_buf err_jb; static int err_code;
-static void my_error_exit(j_common_ptr c) { err_code = c->err->msg_code; longjmp(err_jb, 1); }
+static void my_error_exit(j_common_ptr c) { err_code = c->err->msg_code; if (getenv("C13_DEBUG")) { char b[JMSG_LENGTH_MAX]; (*c->err->format_message) (c, b); fprintf(stderr, "libjpeg: %s\n", b); } longjmp(err_jb, 1); }
 static void my_output(j_common_ptr c) { }
 #define HUFF_BUFSIZE (DCTSIZE2 * 8)     /* jchuff.c BUFSIZE (checked by tools/gen_Dest.py) */
 
@@ -750,6 +762,58 @@ done:
   heap_reset();
 }
 
+/* hk prec pat nbw leave alloc: the longest codes a Huffman table can have (lengths 1..16, the 16-bit code
+   1111111111111110 for the largest magnitude category) on coefficients of maximal magnitude, written with the
+   libjpeg coefficient API (jpeg_write_coefficients) at data precision prec (8 or 12) into the TurboJPEG
+   destination manager; capacity = start of scan data + leave.  Prints block size and the outcome. */
+static int hk_once(int prec, int pat, int nbw, unsigned char **buf, size_t *size, int alloc)
+{
+  struct jpeg_compress_struct ci; struct jpeg_error_mgr je; jvirt_barray_ptr arr[1]; JHUFF_TBL *t; int i, rc = 0, P = prec + 2;
+  ci.err = jpeg_std_error(&je); je.error_exit = my_error_exit; je.output_message = my_output;
+  jpeg_create_compress(&ci);
+  if (setjmp(err_jb)) { rc = err_code == JERR_BUFFER_SIZE ? 1 : 100 + err_code; jpeg_destroy_compress(&ci); return rc; }
+  jpeg_mem_dest_tj(&ci, buf, size, alloc);
+  ci.image_width = 8 * nbw; ci.image_height = 8; ci.input_components = 1; ci.in_color_space = JCS_GRAYSCALE;
+  jpeg_set_defaults(&ci);
+  ci.data_precision = prec;
+  jpeg_set_quality(&ci, 100, TRUE);
+  t = ci.dc_huff_tbl_ptrs[0]; memset(t->bits, 0, sizeof t->bits); t->bits[5] = 16;
+  for (i = 0; i < 16; i++) t->huffval[i] = (UINT8)i;
+  t->sent_table = FALSE;
+  t = ci.ac_huff_tbl_ptrs[0]; memset(t->bits, 0, sizeof t->bits);
+  for (i = 1; i <= 16; i++) t->bits[i] = 1;
+  t->huffval[0] = 0x00; t->huffval[1] = 0xF0;
+  { int k = 2, sz; for (sz = 1; sz <= 15 && k < 15; sz++) if (sz != P) t->huffval[k++] = (UINT8)sz; t->huffval[15] = (UINT8)P; }
+  t->sent_table = FALSE;
+  arr[0] = (*ci.mem->request_virt_barray) ((j_common_ptr)&ci, JPOOL_IMAGE, FALSE, (JDIMENSION)nbw, 1, 1);
+  jpeg_write_coefficients(&ci, arr);
+  { JBLOCKARRAY rows = (*ci.mem->access_virt_barray) ((j_common_ptr)&ci, arr[0], 0, 1, TRUE); int b, maxv = (1 << P) - 1;
+    for (b = 0; b < nbw; b++) for (i = 0; i < 64; i++)
+      rows[0][b][i] = (JCOEF)(i == 0 ? ((pat & 4) ? maxv : 0) : (pat & 3) == 0 ? maxv : (pat & 3) == 1 ? -maxv : (i & 1) ? maxv : -maxv); }
+  jpeg_finish_compress(&ci);
+  jpeg_destroy_compress(&ci);
+  return 0;
+}
+
+static void run_hk(char *p)
+{
+  int prec = strtol(p, &p, 10), pat = strtol(p, &p, 10), nbw = strtol(p, &p, 10), leave = strtol(p, &p, 10), alloc = strtol(p, &p, 10);
+  static unsigned char big[1 << 16]; unsigned char *buf = big; size_t size = sizeof big, n, k, sos = 0, cap; int rc;
+  unsigned char *cb, *cb0;
+  rc = hk_once(prec, pat, nbw, &buf, &size, 0);
+  if (rc || buf != big) { printf("hk setup rc=%d\n", rc); heap_reset(); return; }
+  n = size;
+  for (k = 0; k + 3 < n; k++) if (big[k] == 0xFF && big[k + 1] == 0xDA) { sos = k + 2 + ((size_t)big[k + 2] << 8 | big[k + 3]); break; }
+  cap = sos + (size_t)leave;
+  lgn = 0; lg_add("");
+  cb = cb0 = dm_alloc(cap, 1, 0, NULL); size = cap;
+  stop_armed = 0;
+  rc = hk_once(prec, pat, nbw, &cb, &size, alloc);
+  printf("hk n=%zu sos=%zu blk=%zu cap=%zu %s %s same=%d\n", n, sos, (n - sos - 2) / (size_t)nbw, cap,
+         rc == 0 ? "ok" : rc == 1 ? "bufsize" : "other", (rc == 0 && size == n && !memcmp(cb, big, n)) ? "ref" : rc == 0 ? "DIFF" : "-", cb == cb0);
+  heap_reset();
+}
+
 static char line[1 << 20];
 
 int main(void)
@@ -779,6 +843,7 @@ int main(void)
     }
     else if (!strncmp(line, "blk ", 4)) run_blk(line + 4);
     else if (!strncmp(line, "xicc ", 5)) { lgn = 0; run_xicc(line + 5); }
+    else if (!strncmp(line, "hk ", 3)) run_hk(line + 3);
     else if (!strncmp(line, "icc ", 4)) {
       long n = strtol(line + 4, NULL, 10); spec_t s = { 1, 16, 16, TJPF_RGB, TJSAMP_420, 75, 1, 0, -1, 0 }; size_t a, b;
       a = reference(&s)->size; s.icc = n; b = reference(&s)->size;
